@@ -1045,3 +1045,92 @@ def function_level_locals(fn, type_rx=None):
             if type_rx is None or re.search(type_rx, v.get("type", "")):
                 out.append((v["name"], v))
     return out
+
+
+def always_performs(prog, cg, g, direct, memo=None, depth=0):
+    """Must-pass-through summary over the call graph: does EVERY path from g's entry to a normal exit pass an event?  An event is a
+    node listed by direct(g) or a call of a (single-definition, non-virtual) program function that itself always performs one.
+    Returns (bool, [exit locations reached without the event])."""
+    memo = memo if memo is not None else {}
+    if g.usr in memo:
+        return memo[g.usr]
+    memo[g.usr] = (False, ["recursion"])
+    ev = {n: [("set", "E")] for n in direct(g)}
+    notes = []
+    if depth < 4:
+        for i in g.calls():
+            n = g.nodes[i]
+            if n.get("virt") or not n.get("cusr"):
+                continue
+            tg = [prog.fns[u] for u in prog.resolve(n["cusr"]) if u in prog.fns]
+            if len(tg) != 1 or not tg[0].cfg or not tg[0].file.startswith("oomd/"):
+                continue
+            res = always_performs(prog, cg, tg[0], direct, memo, depth + 1)
+            if res[0]:
+                ev.setdefault(i, []).append(("set", "E"))
+            elif direct(tg[0]) or any("returns at" in x for x in res[1]):
+                notes.append("%s returns at %s without it" % (tg[0].pq.replace("Oomd::", ""), ", ".join(x for x in res[1][:2])))
+    if not ev:
+        memo[g.usr] = (False, notes or ["no event site in " + g.pq])
+        return memo[g.usr]
+    fl = Flow(prog, g, events=ev, cg=cg)
+    bad = []
+    for kind, node, b, parts in fl.exits():
+        if kind not in ("return", "fallthrough"):
+            continue
+        if not all("E" in st.must for st in parts.values()):
+            bad.append(g.loc(node) if node is not None else "end of " + g.pq)
+    memo[g.usr] = (not bad, bad + (notes if bad else []))
+    return memo[g.usr]
+
+
+def detector_walk_every_tick(ctx, tag):
+    """Every evaluation of a ruleset (Ruleset::runOnceImpl) checks ALL its detector groups, on every path - also while its action
+    chain is suspended or paused (detectors keep sliding windows; skipping a tick leaves them stale).  The walk may live in
+    runOnceImpl or in a helper it always calls: a walk is a forward loop over detector_groups_ without early exit that calls
+    DetectorGroup::check on its element in every iteration.  Shared by C02, C05 and C06."""
+    P, cg = ctx.prog, ctx.cg
+    impl = ctx.fn1("Oomd::Engine::Ruleset::runOnceImpl")
+    walks = {}
+
+    def direct(g):
+        if g.usr in walks:
+            return walks[g.usr]
+        out = []
+        for l in loops(g):
+            w = loop_walk(g, l)
+            if not w or w["dir"] != "forward" or w["container"] != "this->detector_groups_":
+                continue
+            cs = [i for i in g.calls("DetectorGroup::check") if l["stmt"] in list(g.ancestors(i))]
+            if not cs:
+                continue
+            fi = iter_flow(ctx, g, l, {i: [("set", "C")] for i in cs})
+            every = all(all("C" in st.must for st in (fi.OUT.get(b) or {}).values()) for b in back_sources(l))
+            real_exits = [(b_, s_) for b_, s_ in early_exits(g, l) if not g.blocks[s_].get("noreturn")]
+            if every and not real_exits:
+                en = loop_entry_node(g, l)
+                if en is not None:
+                    out.append(en)
+        walks[g.usr] = out
+        return out
+    ok, bad = always_performs(P, cg, impl, direct)
+    n_w = sum(len(v) for v in walks.values())
+    ctx.counters[tag + "_detector_walks"] = n_w
+    ctx.floor(tag + "_detector_walks", 1, "complete forward walks over detector_groups_ calling DetectorGroup::check")
+    ctx.check(ok, "detectors-checked-on-every-tick", "must_pass_through (interprocedural)", impl.loc(),
+              "every path through runOnceImpl walks all detector groups (directly or in a helper it always calls)",
+              "runOnceImpl (or the helper holding the detector walk) can return without having checked the detector groups (%s): while that "
+              "path is taken - e.g. during a suspended or paused action chain - sliding-window detectors miss their samples" % ", ".join(bad[:3]))
+
+
+def firing_edge_in_impl(ctx):
+    """Precondition of the rules that read runOnceImpl as 'walk the detector groups, set the action context and the invoking ruleset
+    on the firing edge, gate, resume or start the chain': the DetectorGroup::check calls are in runOnceImpl itself.  When the walk was
+    moved into a helper those rules cannot be evaluated on runOnceImpl alone - that is 'analysis broken', not a violation (the
+    interprocedural rule detectors-checked-on-every-tick still applies)."""
+    impl = ctx.fn1("Oomd::Engine::Ruleset::runOnceImpl")
+    if impl.calls("DetectorGroup::check"):
+        return True
+    ctx.broken("anchor:firing-edge-in-runOnceImpl", "anchor", impl.loc(),
+               "runOnceImpl no longer contains the DetectorGroup::check calls (moved into a helper?): the rules about what happens on the firing edge cannot be evaluated")
+    return False
